@@ -60,11 +60,12 @@ PrefixNum(p) == CASE p = "0" -> 0 [] p = "1" -> 1 [] p = "8" -> 8 [] p = "08" ->
                   [] p = "129" -> 129 [] p = "999" -> 999 [] OTHER -> -1
 CidrCases == {[k |-> "cidr", fam |-> f, addr |-> a, slashes |-> s, prefix |-> p, extra |-> e] :
                 \* ok_longest: the longest spelling an address has (IPv6: six full groups and a full-width dotted quad, 45 characters)
-                f \in {4, 6}, a \in {"ok", "ok_hostbits", "ok_longest", "bad"}, s \in {0, 1, 2}, p \in Prefixes,
+                \* bad_scoped: an address with a zone index - an interface-local notion a network does not have
+                f \in {4, 6}, a \in {"ok", "ok_hostbits", "ok_longest", "bad", "bad_scoped"}, s \in {0, 1, 2}, p \in Prefixes,
                 e \in {"", "0", "8"}}
-CidrValid(x) == /\ x.addr # "bad" /\ x.slashes = 1 /\ x.prefix # ""
+CidrValid(x) == /\ x.addr \notin {"bad", "bad_scoped"} /\ x.slashes = 1 /\ x.prefix # ""
                 /\ PrefixNum(x.prefix) >= 0 /\ PrefixNum(x.prefix) <= (IF x.fam = 4 THEN 32 ELSE 128)
-Cidr6Valid(x) == x.fam = 6 /\ x.addr # "bad" /\
+Cidr6Valid(x) == x.fam = 6 /\ x.addr \notin {"bad", "bad_scoped"} /\
                  \/ (x.slashes = 0)                       \* a bare IPv6 address is accepted as /128
                  \/ (x.slashes = 1 /\ x.prefix # "" /\ PrefixNum(x.prefix) >= 0 /\ PrefixNum(x.prefix) <= 128)
 
